@@ -50,8 +50,21 @@ func verifBucketOn(db *sql.DB, name string, inMemory bool) *Bucket {
 		inMemory:        inMemory,
 		serial:          1,
 	}
-	b.expManager = newExpirationManager(b.doExpiration)
+	b.expManager = newExpirationManager(verifExpiryFunc(b))
 	return b
+}
+
+// The symbolic executor never fires a timer by itself (harnesses fire it
+// explicitly); natively a timer armed for a past instant would fire at once and
+// race with the replayed harness, so native firing is gated.
+var verifTimerFiresAllowed bool
+
+func verifExpiryFunc(b *Bucket) func() {
+	return func() {
+		if verifSymbolic() || verifTimerFiresAllowed {
+			b.doExpiration()
+		}
+	}
 }
 
 // invDoc is the per-row representation invariant (DESIGN.md §4.3 clauses 1-4).
